@@ -2636,7 +2636,11 @@ outside the scope (`Typed`: `BatShallow`) — for a batcher INSIDE AN INNER grou
 formed in an OUTER group the property is FALSE (`nested_batcher_false`, finding F14);
 (2) all paths of a group must stand in the SAME context (a group shared between two different
 nesting levels is not typed); (3) re-wiring IN SCRIPTS together with several groups (`S5` requires
-`NR`; re-wiring from outside is covered: `no_lost_wakeup5_rewire_reachable`). -/
+`NR`; re-wiring from outside is covered: `no_lost_wakeup5_rewire_reachable`).
+LATER STAGE V (end of this file) settles (3): `no_lost_wakeup5_script_rewire_reachable` (scope `S5R`,
+typed envelope), and refines (2): a group shared between two nesting levels IS in scope when its usages
+are not connected by the wiring (`s5_exLevels`); what remains open is listed at
+`no_lost_wakeup5_script_rewire_partial`. -/
 theorem no_lost_wakeup5_partial {cl : List (List Nat)} (n : Nat) {w : World} (hs : S5 cl w)
     (hi : C01.Inv w.env) (h0 : 0 ≤ w.now) (he : EvOK w) (hf : FreshA w)
     (hc : ClockAdvances (runLoop n w.simulateInit)) : Quiescent (runLoop n w.simulateInit) :=
